@@ -91,6 +91,7 @@ class Sidecar:
         self.consts = {}
         self.dict_records = set()
         self.load_modules = []
+        self.impl_contracts = {}   # qual -> contract of the implementation itself when a @family has the same name
 
 
 def _s(node):
@@ -267,6 +268,12 @@ def load_file(path, sc):
                     have = {n for n, _ in ls.invariants}
                     ls.invariants = [(n, e) for n, e in inh if n not in have] + ls.invariants
                 if qual in sc.contracts:
+                    other = sc.contracts[qual]
+                    if {other.kind, c.kind} == {'family', 'contract'} and qual not in sc.impl_contracts:
+                        fam, own = (other, c) if other.kind == 'family' else (c, other)
+                        sc.contracts[qual] = fam
+                        sc.impl_contracts[qual] = own
+                        continue
                     raise ValueError('duplicate contract for ' + qual)
                 sc.contracts[qual] = c
                 continue
